@@ -6,6 +6,7 @@ Both sides print the same observation language (see lean/Driver.lean).
 """
 from __future__ import annotations
 
+import zlib
 import asyncio
 import os
 import random
@@ -1299,40 +1300,46 @@ class Session:
         name = self.ev_name(e)
         sm = rt.sm
         declared = name in type(sm)._events
+        # one scenario in three: the caller also passes keyword arguments named like the ones the library provides
+        # (`sm.pay(amount=10, event="checkout-4711")`): they are dropped, every callback sees the library's values
+        junk, junk_call = {}, {}
+        if zlib.crc32(self.scn.name.encode()) % 3 == 0:
+            junk = {k: "JUNK" for k in ("state", "source", "target", "model", "machine", "transition", "event_data")}
+            junk_call = dict(junk, event="JUNK")     # (`send(name, event=…)` is Python's own collision: D24)
         foreign = getattr(self, "foreign_from", None)
         if foreign is not None and name in type(foreign)._events:
             # the caller hands over the *bound event object of another machine* (e.g. the `event` it received in a
             # callback): `send` takes the name from it and triggers this machine's own event of that name
-            return sm.send(getattr(foreign, name), _tid=EqTag(tid))
+            return sm.send(getattr(foreign, name), _tid=EqTag(tid), **junk)
         if style == "foreign" and declared:
             # the caller hands over the trigger object of *another* machine that happens to have an event of that name
             # (an item of its `events`, its `sm.<event>`): `send` takes the name from it and triggers this machine
             other = self.foreign_machine()
             if other is not None and hasattr(other, name):
                 before = other.current_state.id
-                r = sm.send(getattr(other, name), _tid=EqTag(tid))
+                r = sm.send(getattr(other, name), _tid=EqTag(tid), **junk)
                 if other.current_state.id != before:
                     rt.lines.append("X sending another machine's trigger object moved that other machine")
                 return r
         if style == "method" and declared:
-            return getattr(sm, name)(_tid=EqTag(tid))
+            return getattr(sm, name)(_tid=EqTag(tid), **junk_call)
         if style == "events" and declared:
-            return next(x for x in sm.events if x == name)(_tid=EqTag(tid))
+            return next(x for x in sm.events if x == name)(_tid=EqTag(tid), **junk_call)
         if style == "allowed":
             try:
                 cands = [x for x in sm.allowed_events if x == name]
             except Exception:
                 cands = []
             if cands:
-                return cands[0](_tid=EqTag(tid))
+                return cands[0](_tid=EqTag(tid), **junk_call)
         if style == "modelbound" and declared and name in getattr(rt.model, "__dict__", {}):
-            return getattr(rt.model, name)(_tid=EqTag(tid))
+            return getattr(rt.model, name)(_tid=EqTag(tid), **junk_call)
         if style == "bound" and declared:
             if not hasattr(rt.bound, name):
                 rt.lines.append(f"X event {name} was not bound onto the target object by bind_events_to")
             else:
-                return getattr(rt.bound, name)(_tid=EqTag(tid))
-        return sm.send(name, _tid=EqTag(tid))
+                return getattr(rt.bound, name)(_tid=EqTag(tid), **junk_call)
+        return sm.send(name, _tid=EqTag(tid), **junk)
 
     def do_op(self, i, op):
         """returns ('R', value-or-coroutine) or ('L', line)"""
